@@ -107,10 +107,13 @@ def decode_lemma(word):
         try:
             a = L.cell("a")
             pre = Pre(L, stack=[a])
+            L.field(pre.S, "State", "stack_limit").variant = "None"      # no configured limit: every error is the word's own
             tgt = word_map(L.ex, "base_ext::load")[word][0]
             fn, args = word_call(L, tgt, pre.xs)
             outs = L.run(fn, args, pre.pc + [untagged(L, a)], pre.roots())
             L.witness(outs, lambda o: o.kind == "return" and o.value.variant == "Ok", word + " succeeds")
+            bad_text = {"base32>": "\"1\"", "base32hex>": "\"U\"", "base64>": "\"*\"", "zero85>": "\"a\""}[word]
+            nil_cex = lambda m: {"lines": ["eval %s %s" % (bad_text, word), "stack"], "expect": [("no_panic",), ("last_result_in", ["ok"]), ("top_in", [("nil", "nil")])]}
             for o in outs:
                 if o.kind != "return":
                     L.fail(o, "%s must not panic: %s" % (word, (o.msg or "")[:80]))
@@ -118,11 +121,11 @@ def decode_lemma(word):
                 S1 = final_state(L, o)
                 va = variant_on_path(L, o, a)
                 kind = L.result_kind(o)
-                if kind[0] == "Err" and kind[1] in ("StackUnderflow", "ErrorMsg"):
+                if kind[0] == "Err" and kind[1] == "StackUnderflow":
                     continue
                 if va != "Str":
                     continue
-                L.require(o, z3.BoolVal(kind[0] == "Ok"), word + ": never an error on a string")
+                L.require(o, z3.BoolVal(kind[0] == "Ok"), word + ": never an error on a string (text the codec rejects yields nil)", cex=nil_cex)
                 if kind[0] != "Ok":
                     continue
                 ds1 = L.field(S1, "State", "data_stack")
@@ -142,7 +145,7 @@ def decode_lemma(word):
                 if accepted:
                     L.require(o, z3.BoolVal(isinstance(top, Enum) and top.variant == "Bitstr"), word + ": text the codec accepts yields the decoded bytes (also when they are empty)", cex=DEC_SCEN(word))
                 else:
-                    L.require(o, z3.BoolVal(isinstance(top, Enum) and top.variant == "Nil"), word + ": text the codec rejects yields nil")
+                    L.require(o, z3.BoolVal(isinstance(top, Enum) and top.variant == "Nil"), word + ": text the codec rejects yields nil", cex=nil_cex)
         finally:
             uninstall_codecs(L.ex)
     return body
